@@ -52,6 +52,10 @@ extern int mpt_path_add(MPT_STRUCT(path) *path, int add)
 			}
 			data = pre ? memcpy(arr._buf + 1, data, pre) : (void*) (arr._buf + 1);
 		}
+		/* separators are written in place: array must not be shared */
+		else if (!(data = mpt_array_slice(&arr, 0, arr._buf->_used))) {
+			return MPT_ERROR(BadOperation);
+		}
 		/* set leading/trailing/next size parameter */
 		if (len) {
 			data[len - 1] = add;
@@ -74,6 +78,10 @@ extern int mpt_path_add(MPT_STRUCT(path) *path, int add)
 				return MPT_ERROR(BadOperation);
 			}
 			data = pre ? memcpy(arr._buf + 1, data, pre) : (void*) (arr._buf + 1);
+		}
+		/* separators are written in place: array must not be shared */
+		else if (!(data = mpt_array_slice(&arr, 0, arr._buf->_used))) {
+			return MPT_ERROR(BadOperation);
 		}
 		/* change path assign to separator */
 		if (len) {
